@@ -122,7 +122,9 @@ func (c *Ctx) Merge(prefix string, sub *Ctx) {
 }
 
 // Note adds an informational line to the evidence.
-func (c *Ctx) Note(format string, a ...interface{}) { c.Notes = append(c.Notes, fmt.Sprintf(format, a...)) }
+func (c *Ctx) Note(format string, a ...interface{}) {
+	c.Notes = append(c.Notes, fmt.Sprintf(format, a...))
+}
 
 // Fn resolves a function anchor; a missing anchor aborts the current clause as undecided.
 func (c *Ctx) Fn(name string) *FuncInfo {
